@@ -2,6 +2,7 @@
 Spec: spec/Signature.tla."""
 import random
 
+from . import fakes  # noqa: F401  (installs the quiet log observer, repo path)
 from . import core, tlc, wirecodec as wc
 from txdbus import marshal, interface
 
